@@ -514,6 +514,9 @@ def stepReg (st : DState) (args : List String) : Option (DState × String) :=
         | "ge" => pure1 (showBRes (q.qtyCmp .ge a b))
         | "add" => pure1 (showQRes r (q.qtyAddSub d 1 a b))
         | "sub" => pure1 (showQRes r (q.qtyAddSub d (-1) a b))
+        -- `s = a; s += b`: the sum, and `a` is left as it was (quantities are values)
+        | "iadd" => pure1 (showQRes r (q.qtyAddSub d 1 a b))
+        | "isub" => pure1 (showQRes r (q.qtyAddSub d (-1) a b))
         | "mul" => let (q', v) := q.qtyMul d a b; some ({ st with q := q' }, showVRes q'.reg v)
         | "div" => let (q', v) := q.qtyDiv d a b; some ({ st with q := q' }, showVRes q'.reg v)
         | _ => some (st, bad)
